@@ -48,6 +48,21 @@ func concurrentChild(args []string) int {
 		sites = append(sites, s)
 		cf.WriteString(s.block(port, j.Dir))
 	}
+	// a site whose configured error pages are large (several reads each): many
+	// clients failing at once must each get the whole page
+	bigPage := func(label string) []byte {
+		var b bytes.Buffer
+		for i := 0; b.Len() < 192<<10; i++ {
+			fmt.Fprintf(&b, "<p>%s line %06d of the configured error page</p>\n", label, i)
+		}
+		return b.Bytes()
+	}
+	big404, bigGeneric := bigPage("404"), bigPage("generic")
+	os.WriteFile(filepath.Join(root, "big404.html"), big404, 0o644)
+	os.WriteFile(filepath.Join(root, "biggeneric.html"), bigGeneric, 0o644)
+	errSite := Site{Idx: 990, Mask: 1 << dErrors, Pages: true}
+	fmt.Fprintf(&cf, "http://%s:%d {\n\troot %s\n\tverifprobe\n\terrors {\n\t\t404 %s\n\t\t* %s\n\t}\n}\n", errSite.host(), port, root,
+		filepath.Join(root, "big404.html"), filepath.Join(root, "biggeneric.html"))
 	lib.CaptureLog()
 	inst, err := lib.Start(cf.String(), filepath.Join(j.Dir, "Casketfile"))
 	if err != nil {
@@ -142,6 +157,52 @@ func concurrentChild(args []string) int {
 				mu.Lock()
 				out.Counters["concurrent_bodies_verified"]++
 				mu.Unlock()
+			}(cl)
+		}
+		wg.Wait()
+	}
+	// overlapping error responses on the site with large pages
+	{
+		var wg sync.WaitGroup
+		for cl := 0; cl < 16; cl++ {
+			wg.Add(1)
+			go func(cl int) {
+				defer wg.Done()
+				k, err := lib.Dial(addr)
+				if err != nil {
+					return
+				}
+				defer k.Close()
+				k.Timeout = 120 * time.Second
+				for i := 0; i < j.Rounds; i++ {
+					st := []int{404, 500, 404, 503, 403}[(cl+i)%5]
+					sp := probe.Spec{Ret: st}
+					if (cl+i)%7 == 3 {
+						sp = probe.Spec{Panic: "before"} // the 500 page of a contained panic comes the same way
+						st = 500
+					}
+					want := bigGeneric
+					if st == 404 {
+						want = big404
+					}
+					resp := k.Do("GET", lib.BuildReq("GET", "/p/x", errSite.host(), nil, "X-Verif-Probe: "+sp.Encode()))
+					mu.Lock()
+					out.Counters["concurrent_error_pages_requested"]++
+					mu.Unlock()
+					wit := map[string]interface{}{"client": cl, "request": i, "returned_status": st, "page_len": len(want), "got": respWitness(resp)}
+					switch {
+					case resp.Err != nil:
+						viol("C12/concurrent/error-page/no-response", "overlapping failing requests: no well-formed response: "+resp.Err.Error(), errSite, wit)
+					case resp.Status != st:
+						viol("C12/concurrent/error-page/status-changed", fmt.Sprintf("overlapping failing requests: handler returned %d, client received %d", st, resp.Status), errSite, wit)
+					case !bytes.Equal(resp.Body, want):
+						viol("C12/concurrent/error-page/not-the-configured-page", fmt.Sprintf("overlapping failing requests: handler returned %d, the client received %d body bytes that are not the configured %d-byte page", st, len(resp.Body), len(want)), errSite, wit)
+					default:
+						mu.Lock()
+						out.Counters["concurrent_error_pages_verified"]++
+						mu.Unlock()
+					}
+				}
 			}(cl)
 		}
 		wg.Wait()
